@@ -29,6 +29,18 @@ obligation as well, while moving a test into a helper method, re-ordering tests,
 `==`, `not in` as `in`), hoisting a pattern into a compiled constant or renaming a constant / local variable does not.
 (`_IPV4_REGEX_STR` / `_RGX_IPV4ADDR` and `_IPV6_REGEX_STR_COMPRESSED1..3` are not scanned for by any model and are
 therefore deliberately not tied.)
+
+**Scan sets as revised.**  The lists below contain only what identifies the regex / separator a scanner was written
+for: regex-engine calls (`re.*`, methods of compiled patterns, the `re_*` helpers of the package) with the pattern in
+*canonical form* — canonical verbose form and no VERBOSE flag for a pattern compiled with `re.VERBOSE`; group names
+removed (`(?P<n>…)` is written `(…)`, `(?P=n)` by number); redundant escapes removed (`\:` is `:`); a pattern handed to a
+same-file helper as an argument, or built from a local name that ranges over a constant collection, reported once per
+value; a search that cannot fail (`.*`) not reported — with the flags and, for `re.sub`, the replacement; and the
+separator arguments of `str.split / rsplit / partition / rpartition / join / replace / strip / splitlines`.  The literal
+tests (`"lit" in …`, comparisons with string literals and their subscripts, `str.startswith / endswith / find …`) that
+earlier versions of these lists contained are now the INFORMATIONAL definitions `Gen.rx…Info`: no theorem is about
+them, so reading a regex group into a local, hoisting a `.split()`, merging branches or renaming a group does not break
+an obligation.  Where the text above speaks of such a test as part of a scan set, read: part of `…Info`.
 -/
 namespace Ccp.RxC11
 
@@ -37,12 +49,12 @@ source for which the model contains a hand-written scanner has the text that sca
 are named `regexes_as_modelled__<definition>`, so that a failing build names the constant that was edited.) -/
 theorem regexes_as_modelled :
     Gen.rxIPv4ObjInit =
-      [("re.search", "(?:^(?P<v4addr_nomask>\\d+\\.\\d+\\.\\d+\\.\\d+)$|(?:^(?:(?P<v4addr_netmask>\\d+\\.\\d+\\.\\d+\\.\\d+))(\\s+|\\/)(?:(?P<netmask>\\d+\\.\\d+\\.\\d+\\.\\d+))$)|^(?:\\s*(?P<v4addr_prefixlen>\\d+\\.\\d+\\.\\d+\\.\\d+)(?:\\/(?P<masklen>\\d+))\\s*)$)", "VERBOSE"),
+      [("re.search", "(?:^(\\d+\\.\\d+\\.\\d+\\.\\d+)$|(?:^(?:(\\d+\\.\\d+\\.\\d+\\.\\d+))(\\s+|/)(?:(\\d+\\.\\d+\\.\\d+\\.\\d+))$)|^(?:\\s*(\\d+\\.\\d+\\.\\d+\\.\\d+)(?:/(\\d+))\\s*)$)", ""),
        ("re.search", "\\d+\\.\\d+\\.\\d+\\.\\d+", ""),
        ("re.search", "^\\d+$", ""),
        ("re.search", "^\\d+\\.\\d+\\.\\d+\\.\\d+$", "")] ∧
     Gen.rxIPv6ObjInit =
-      [("re.search", "^(?!:::\\S+?$)(?P<addr>(?P<opt1>[0-9a-fA-F]{1,4}(?::[0-9a-fA-F]{1,4}){7})|(?P<opt2>[0-9a-fA-F\\:]+?\\d+\\.\\d+\\.\\d+\\.\\d+)|(?P<opt3>(?:[0-9a-fA-F]{1,4}:){1}(?::[0-9a-fA-F]{1,4}){1,6})|(?P<opt4>(?:[0-9a-fA-F]{1,4}:){2}(?::[0-9a-fA-F]{1,4}){1,5})|(?P<opt5>(?:[0-9a-fA-F]{1,4}:){3}(?::[0-9a-fA-F]{1,4}){1,4})|(?P<opt6>(?:[0-9a-fA-F]{1,4}:){4}(?::[0-9a-fA-F]{1,4}){1,3})|(?P<opt7>(?:[0-9a-fA-F]{1,4}:){5}(?::[0-9a-fA-F]{1,4}){1,2})|(?P<opt8>(?:[0-9a-fA-F]{1,4}:){6}(?::[0-9a-fA-F]{1,4}){1,1})|(?P<opt9>:(?::[0-9a-fA-F]{1,4}){1,7})|(?P<opt10>(?:[0-9a-fA-F]{1,4}:){1,7}:)|(?P<opt11>(?:::)))([/\\s](?P<masklen>\\d+))?$", "VERBOSE"),
+      [("re.search", "^(?!:::\\S+?$)(([0-9a-fA-F]{1,4}(?::[0-9a-fA-F]{1,4}){7})|([0-9a-fA-F:]+?\\d+\\.\\d+\\.\\d+\\.\\d+)|((?:[0-9a-fA-F]{1,4}:){1}(?::[0-9a-fA-F]{1,4}){1,6})|((?:[0-9a-fA-F]{1,4}:){2}(?::[0-9a-fA-F]{1,4}){1,5})|((?:[0-9a-fA-F]{1,4}:){3}(?::[0-9a-fA-F]{1,4}){1,4})|((?:[0-9a-fA-F]{1,4}:){4}(?::[0-9a-fA-F]{1,4}){1,3})|((?:[0-9a-fA-F]{1,4}:){5}(?::[0-9a-fA-F]{1,4}){1,2})|((?:[0-9a-fA-F]{1,4}:){6}(?::[0-9a-fA-F]{1,4}){1,1})|(:(?::[0-9a-fA-F]{1,4}){1,7})|((?:[0-9a-fA-F]{1,4}:){1,7}:)|((?:::)))([/\\s](\\d+))?$", ""),
        ("re.split", "\\s+", ""),
        ("str.join", "/", "")] := by
   refine ⟨?regexes_as_modelled__rxIPv4ObjInit, ?regexes_as_modelled__rxIPv6ObjInit⟩
